@@ -148,7 +148,8 @@ def check(cx):
 
     # ---- C02.2 classification -----------------------------------------------------------
     r2 = cx.rule("C02.2", "TAB: run_analysis classifies Begin -> needs_undo.insert; Commit -> needs_undo.remove + "
-                 "needs_redo.insert; Abort -> needs_redo.remove + needs_undo.insert", floor=3)
+                 "needs_redo.insert; Abort -> needs_redo.remove + needs_undo.insert; every record joins its transaction's LSN chain "
+                 "unconditionally", floor=4)
 
     def set_ops(blocks):
         """(method, field) pairs of BTreeSet insert/remove on fields of the AnalysisResult"""
@@ -187,6 +188,54 @@ def check(cx):
         cx.verdict(got == w and not cond, r2, v, fa.where(), "arm does %s, unconditionally" % sorted(got),
                    "arm of %s does %s%s, expected %s unconditionally: e.g. a COMMIT whose BEGIN was truncated away by a "
                    "checkpoint is then not redone" % (v, sorted(got), (" (conditional: %s)" % cond) if cond else "", sorted(w)))
+
+    # every record of a transaction joins that transaction's LSN chain, whatever its kind and whether or not the BEGIN
+    # is still in the log (a checkpoint inside a transaction truncates the BEGIN away; redo/undo treat a missing chain as
+    # a hard error)
+    from axvlib.core import natural_loops
+    chain_push = [c for c in fa.calls() if c.callee.endswith("Vec::<T, A>::push") and any("u64" in a for a in c.gargs)]
+    lp = [(h, body) for h, body in natural_loops(fa) if any(c.bb in body for c in chain_push)]
+    if not chain_push or not lp:
+        cx.bad(r2, "lsn-chain-unconditional", fa.where(), "run_analysis does not push record LSNs onto per-transaction chains inside its record loop")
+    else:
+        h, body = max(lp, key=lambda x: len(x[1]))
+        kill = {c.bb for c in chain_push}
+        # entry of one iteration: successors of the header inside the body
+        free = False
+        seen_b, work = set(), [x for x in fa.succ(h) if x in body]
+        while work:
+            u = work.pop()
+            if u in seen_b or u in kill or u not in body or fa.blocks[u]["cleanup"]:
+                continue
+            seen_b.add(u)
+            for v in fa.succ(u):
+                if v == h:
+                    # `continue` before the record was decoded (e.g. skipping padding) does not count: require that a
+                    # record was read on this path
+                    free = True
+                else:
+                    work.append(v)
+        # paths that leave the iteration before a record exists (iterator exhausted / decode error) are not in `body` back edges
+        first_rec = [c for c in fa.calls() if c.bb in body and (c.callee.endswith("::lsn") or c.callee.endswith("::log_type") or c.callee.endswith("::tid"))]
+        if free and first_rec:
+            # only paths that passed the record accessors matter
+            rb = min(c.bb for c in first_rec)
+            free = False
+            seen_b, work = set(), [rb]
+            while work:
+                u = work.pop()
+                if u in seen_b or u in kill or u not in body or fa.blocks[u]["cleanup"]:
+                    continue
+                seen_b.add(u)
+                for v in fa.succ(u):
+                    if v == h:
+                        free = True
+                    else:
+                        work.append(v)
+        cx.verdict(not free, r2, "lsn-chain-unconditional", chain_push[0].where(), "every record is added to its transaction's chain",
+                   "run_analysis can finish a record without adding its LSN to the transaction's chain (the push is conditional, e.g. on a "
+                   "BEGIN having been seen): a transaction whose BEGIN was cut off by a checkpoint is classified but has no chain, "
+                   "and open() fails or skips its committed work")
 
     # ---- C02.3 payload shape -----------------------------------------------------------
     r3 = cx.rule("C02.3", "TAB/FLOW: for each data record kind, Operation::{object_id,row_id} return Some exactly when "
